@@ -106,6 +106,9 @@ type machine struct {
 	stopRequested bool
 	ctxKids map[*ctxV][]*ctxV
 	initRunning *ssa.Package
+	concrete []NondetVal
+	cpos int
+	concreteMode bool
 	panicStack []string
 }
 
